@@ -83,11 +83,9 @@ def coerceCommentLoop : Nat → Str → Except PyErr Str
 
 def endsWithDash (d : Str) : Bool := d.getLast? = some 45
 
-def coerceComment (f : Flags) (data : Str) : Except PyErr Str :=
-  if f.preventDoubleDashComments then do
-    let d ← coerceCommentLoop (data.length + 2) data
-    pure (if endsWithDash d then d ++ [32] else d)
-  else .ok data
+def coerceComment (f : Flags) (data : Str) : Except PyErr Str := do
+  let d ← if f.preventDoubleDashComments then coerceCommentLoop (data.length + 2) data else pure data
+  pure (if (f.preventDoubleDashComments || f.preventDashAtCommentEnd) && endsWithDash d then d ++ [32] else d)
 
 def coerceCharacters (f : Flags) (data : Str) : Str :=
   if f.replaceFormFeedCharacters then data.replaceChar 12 [32] else data
